@@ -2,12 +2,14 @@ import PegVerif.Exec.ErrDriver
 import PegVerif.Exec.Driver
 import PegVerif.Exec.Run
 import PegVerif.Exec.SetDriver
+import PegVerif.Exec.CliDriver
 def main (args : List String) : IO UInt32 := do
   match args with
   | ["err"] => PegVerif.errMain
   | ["emit"] => PegVerif.emitMain
   | ["run"] => PegVerif.runMain
   | ["set"] => PegVerif.setMain
+  | ["cli"] => PegVerif.cliMain
   | _ =>
     IO.eprintln s!"pegmodel: unknown command {args}"
     return 2
